@@ -1,6 +1,6 @@
 ---------------------------- MODULE Trace_Session ----------------------------
 (* C2S judge for C09.  Record: [id, v (vendor class), pt (patch tree), shown (lexed formatter.patch: d,row),
-   paths (cmd_paths keys), sent (CommandList: d,row,timeout,answers), docommit, dofinalize, drules (deploy rule tree), judgeParams] *)
+   paths (cmd_paths keys), sent (CommandList: d,row,timeout,answers), docommit, dofinalize, drules (deploy rule tree, rules may carry ifctx), ctxs (context of each command path, as [key, value] pairs), judgeParams] *)
 EXTENDS DeploySession, TLC, Json, IOUtils
 Recs == ndJsonDeserialize(IOEnv.TRACE_FILE)
 VARIABLE i
@@ -19,8 +19,8 @@ Verdict(r) ==
   ELSE IF ~r.docommit /\ \E j \in DOMAIN ex : sent[ex[j]].row \in CommitCmds THEN <<"commit-sent-although-disabled", 0>>
   ELSE IF r.judgeParams /\ \E k \in bodyPos :
             LET kk == Cardinality({j \in bodyPos : j <= k})         \* index in the body
-                want == RuleFor(r.drules, r.paths[kk])
-            IN ParamsDefined(r.drules, r.paths[kk]) /\ (r.sent[k].timeout # want.timeout \/ r.sent[k].answers # want.answers)
+                want == RuleFor(r.drules, r.paths[kk], r.ctxs[kk])
+            IN ParamsDefined(r.drules, r.paths[kk], r.ctxs[kk]) /\ (r.sent[k].timeout # want.timeout \/ r.sent[k].answers # want.answers)
        THEN <<"wrong-timeout-or-dialog", 0>>
   ELSE IF r.checkModel /\ Flatten(r.v, r.pt, 0, <<>>) # r.shown THEN <<"ok", 1>>      \* model drift (A-layer), not a violation
   ELSE <<"ok", 0>>
